@@ -556,6 +556,22 @@ func caseCacheExpandedLong() {
 	runCacheMode("st", 256, progs[:1+rnd.Intn(3)], 3, 0, 2)
 }
 
+// caseCacheTruncatedMapped: call stacks deep enough for their names to be
+// truncated (exactly 4096 bytes with the marker), counted in a MAPPED file and
+// read back through Read / ReadStack / Parse.
+func caseCacheTruncatedMapped() {
+	out.Note("cache-truncated-mapped")
+	var progs [][]byte
+	for k := 1 + rnd.Intn(2); k > 0; k-- {
+		p := make([]byte, 70+rnd.Intn(40))
+		for i := range p {
+			p[i] = Pick(rnd, []byte{0, 8, 1, 9, 2, 10, 3, 11, 7, 15, 22, 23})
+		}
+		progs = append(progs, p)
+	}
+	runCacheMode(Pick(rnd, []string{"st", "stack/x"}), 256, progs, 3, 0, 2)
+}
+
 func caseCacheGeneric() {
 	out.Note("cache-generic-instantiations")
 	runCacheMode("st", 3, [][]byte{{3}, {20}}, 4, 0, 1)
@@ -789,6 +805,8 @@ func main() {
 			f = caseCacheDeepShared
 		case i%100 == 39:
 			f = caseCacheExpandedLong
+		case i%100 == 49:
+			f = caseCacheTruncatedMapped
 		case i%20 == 7:
 			f = caseEncUnicodeCut
 		case i%10 < 5:
